@@ -121,7 +121,7 @@ package rle
 //@   split r.bitWidth == 2
 //@   split r.bitWidth == 3
 //@   requires encInv(r)
-//@   free-requires r.repeatCount < 1073741824
+//@   free-requires r.repeatCount < 1073741824 && r.out.i < 2000000000
 //@   safety[C07]
 //@   modifies r, r.out, HA(r.out.d), HA(r.valBuf)
 //@   ensures[C07] r.headerPointer == -1 && r.groupCount == 0 && #res == 4 + r.out.i
